@@ -68,6 +68,7 @@ fn main() {
         "predicates" => vharness::pure::drive_predicates(&mut cx),
         "orderings" => vharness::pure::drive_orderings(&mut cx),
         "measures" => vharness::pure::drive_measures(&mut cx, &hist),
+        "inserttxn" => vharness::txn::drive_inserttxn(&mut cx, &hist),
         _ => { eprintln!("unknown family {fam}"); std::process::exit(2); }
     }
     cx.tr.flush();
